@@ -223,6 +223,45 @@ def ref_run(flavour, src, ops):
     return run_on(RefBuffer(elements(flavour, src)), ops)
 
 
+# ----------------------------------------------------------------------------- scope of C20
+
+MOVES = ('n', 'f', 'b', 'u')            # op kinds that may move the cursor
+OBSERVERS = ('pos', 'p', 'r', 'g', 'l', 'h', 's', 'e', 'c')
+
+
+def op_kind(word):
+    return word.split(':')[0]
+
+
+def scope_len(flavour, src, ops):
+    """Length of the longest prefix of `ops` that lies inside the property's scope: `forward`
+    and `backward` moves that stay inside the sequence (0 <= index <= length after the move);
+    every other operation is unrestricted.  Computed on the list+index reference."""
+    ref = RefBuffer(elements(flavour, src))
+    n = len(ref.items)
+    for k, w in enumerate(ops):
+        parts = w.split(':')
+        if parts[0] in ('f', 'b'):
+            j = int(parts[1])
+            target = ref.idx + j if parts[0] == 'f' else ref.idx - j
+            if not 0 <= target <= n:
+                return k
+        try:
+            apply_op(ref, w)
+        except (StopIteration, IndexError, AssertionError):
+            pass
+    return len(ops)
+
+
+def parse_request(line):
+    """Inverse of `request`: (flavour, src, ops)."""
+    head, _, tail = line.partition(' | ')
+    words = head.split(' ')
+    assert words[0] == 'buf' and words[1] in ('s', 't'), line
+    src = dec(words[2]) if words[1] == 's' else dec_set(words[2])
+    return words[1], src, [w for w in tail.split(';') if w]
+
+
 # ----------------------------------------------------------------------------- model driver
 
 def model_batch(driver, lines, timeout=900):
